@@ -281,7 +281,7 @@ def fragment_tail(sl, anchor_re, name=None):
     return s
 
 
-def fragment_between(sl, start_re, end_re, name=None, allow_continue=False):
+def fragment_between(sl, start_re, end_re, name=None, allow_continue=False, allow_return=False):
     """Head/middle fragment: the text from the unique match of start_re up to (not including) the unique match of
     end_re; both anchors must lie in the same block (the fragment is brace-balanced) and it must not return."""
     header, body = body_of(sl.text)
@@ -299,7 +299,9 @@ def fragment_between(sl, start_re, end_re, name=None, allow_continue=False):
     _scan_code(t, 0, f)
     if d[0] != d0:
         raise Undecided("fragment_between(%s): the two anchors are not in the same block (fragment is not brace-balanced)" % sl.name)
-    if re.search(r'\b(return|goto)\b', strip_comments(t)):
+    # allow_return: for a HEAD fragment of a void function placed in a void function of its own, an early `return` in the fragment is the
+    # real function returning early; the fragment's postcondition is then checked on that state (nothing after it runs)
+    if re.search(r'\bgoto\b' if allow_return else r'\b(return|goto)\b', strip_comments(t)):
         raise Undecided("fragment_between(%s): the fragment contains return/goto" % sl.name)
     return Slice(name or sl.name + ":middle", sl.rel, t, sl.line, kind="middle-fragment")
 
@@ -813,6 +815,10 @@ def run_property(pid, tier, jobs, level, trusted_base, assumptions, explanation,
     for old in _glob.glob(os.path.join(VERIF, "replay", pid + "_*.json")):
         os.remove(old)
     results, undecided = [], []
+    only = os.environ.get("VERIF_ONLY")   # development aid: run the jobs whose name matches; never set by the registered commands
+    if only:
+        jobs = [j for j in jobs if re.search(only, j.name)]
+        print("DEV RUN: job filter %r -> %d job(s); evidence of this run is partial" % (only, len(jobs)))
     nworkers = int(os.environ.get("VERIF_JOBS", "16"))
     with concurrent.futures.ThreadPoolExecutor(max_workers=nworkers) as ex:
         futs = {ex.submit(run_job, j, os.path.join(pdir, j.name)): j for j in jobs}
